@@ -21,9 +21,11 @@ actors (mrp processes), at the granularity of martian/core/pipestance.go:
   "delete the _lock file in … and start Martian again" (operator)                       -- rmLock
 
   Runtime.InvokePipeline (a START): directory must be empty; instantiatePipeline → Lock();      -- start p
-      on an instantiation error `os.RemoveAll(pipestancePath)` — since the repair of the
-      "refused start deletes the running pipestance" defect not when the error is
-      PipestanceLockedError (regenerated fact `Gen.c15RefusedStartRemovesDir`).
+      on an instantiation error the clean-up — since the repair of the "failed start deletes
+      the running pipestance" defects `os.RemoveAll(pipestancePath)` only when this call took
+      the lock, else `os.Remove` of the folder if it is still empty (regenerated fact
+      `Gen.c15RefusedStartRemovesDir`).  A start can fail BEFORE `Lock()` too (its source     -- startFail p
+      does not parse / compile, call graph error, …).
 
 The exclusive create is the regenerated fact `Gen.c15LockExclusive`.  There is no
 heartbeat and no automatic stale-lock takeover in the code: a lock left by a
@@ -52,13 +54,21 @@ inductive Act
   | rmLock
   /-- `Lock()` when the create of `_lock` fails with an error other than "exists": the
   error is logged, the signal handler is registered and `Lock()` returns nil although
-  no file was created.  (Its callers then fail on the first operation that needs the
-  lock — "Pipestance is in read only mode" — and `Unlock()`; that sequel is an
-  `unlock`-like step of its own, not part of this action.) -/
+  no file was created.  This describes an error that PERSISTS (EPERM on an immutable
+  directory, EROFS — what the harness injects): `metadata.WriteTime(Lock)` that follows
+  fails too and no file appears.  After a TRANSIENT error (EINTR, a momentary ENOSPC /
+  EIO) that second, NON-exclusive write would create `_lock` after all — possibly over
+  another process's; that outcome is not modelled (`lockFile` stays as it was here).
+  (The callers then fail on the first operation that needs the lock — "Pipestance is in
+  read only mode" — and `Unlock()`; that sequel is an `unlock`-like step of its own, not
+  part of this action.) -/
   | acquireErr (p : Nat)
   /-- `Runtime.InvokePipeline` by a second mrp that saw the directory still empty: `Lock()`,
   and on refusal the clean-up of `InvokePipeline` -/
   | start (p : Nat)
+  /-- `Runtime.InvokePipeline` by a second mrp that saw the directory still empty and fails
+  before it reaches `Lock()` (parse / compile / call-graph error of ITS source) -/
+  | startFail (p : Nat)
   deriving DecidableEq, Repr
 
 def drop (p : Nat) (l : List Nat) : List Nat := l.filter (· != p)
@@ -86,6 +96,7 @@ def step (regFirst startRm : Bool) (s : St) : Act → St × Bool
       if s.lockFile then
         (if startRm then { s with lockFile := false } else s, false)
       else ({ s with lockFile := true, holders := p :: s.holders }, true)
+  | .startFail _ => (if startRm then { s with lockFile := false } else s, false)
 
 /-- what the code structure allows: `register` only by an owner that has not yet
 registered, `unlock` only by an owner, `acquire` only by a process that does not
@@ -100,6 +111,7 @@ def enabled (s : St) : Act → Bool
   | .rmLock => true
   | .acquireErr p => !s.holders.contains p
   | .start p => !s.holders.contains p
+  | .startFail p => !s.holders.contains p
 
 /-- the two remaining assumptions: the operator deletes `_lock` only when no
 process owns the pipestance; the create of `_lock` either succeeds or fails with
